@@ -36,6 +36,11 @@ UWZeroCopy(u) ==
 
 \* does this w_binary call take the zero-copy path?
 TakesZc(buf, api, len) == buf = "linkedzc" /\ api \in {"bytes", "faststr"} /\ len >= ZcThreshold
+\* AS BUILT, compact protocol only: write_faststr compares the wrong way round (compact.rs `s.len() <= ZERO_COPY_THRESHOLD`):
+\* every string UP TO the threshold is linked in as its own node and longer ones are copied.  The bytes on the wire are
+\* unaffected (no listed property is broken); the deviation is named here so that the accounting can be validated as built.
+TakesZcCompact(buf, api, len) ==
+  buf = "linkedzc" /\ ((api = "bytes" /\ len >= ZcThreshold) \/ (api = "faststr" /\ len <= ZcThreshold))
 
 \* --- reader
 URLoad(c, n) == [ok |-> c.index + n <= c.buflen, c |-> [c EXCEPT !.index = c.index + n]]
